@@ -33,7 +33,7 @@ class blockiterator(object):
             raise PaddingError('input not a multiple of block size')
         P = BytesIO(m)
         Pi = P.read(self.blocklen)
-        bitcnt = 0
+        bitcnt = nc = 0
         start = self.bitcnt
         while len(Pi)==self.blocklen:
             nc = bitcnt + self.blocksize
@@ -51,7 +51,7 @@ class blockiterator(object):
             if len(lastb)>0:
                 self.bitcnt = 0
                 yield lastb
-        else:
+        elif mlen>0:
             assert nc==bitlen
             self.bitcnt = start+nc
             yield Pi
